@@ -13,4 +13,6 @@ def _lazy(mod, fn):
 
 REGISTRY = {
     "C01": _lazy("serde_checks", "run_c01"),
+    "C02": _lazy("serde_checks", "run_c02"),
+    "C16": _lazy("serde_checks", "run_c16"),
 }
